@@ -21,6 +21,10 @@ import (
 	"seata.apache.org/seata-go/pkg/protocol/codec"
 	"seata.apache.org/seata-go/pkg/protocol/message"
 	"seata.apache.org/seata-go/pkg/remoting/loadbalance"
+	"seata.apache.org/seata-go/pkg/rm"
+	"seata.apache.org/seata-go/pkg/rm/tcc"
+	fencehandler "seata.apache.org/seata-go/pkg/rm/tcc/fence/handler"
+	fencedao "seata.apache.org/seata-go/pkg/rm/tcc/fence/store/db/dao"
 
 	"verifharness/memdb"
 )
@@ -37,7 +41,35 @@ func (c20Hook) BeforeRollback(tx *sql2.Tx) {}
 // table-meta caches start up, the load balancer's session set changes and hooks/codecs are looked up.
 // It reports (one case per scenario) whether everything terminated and nothing was leaked; data races
 // are reported by the runtime on stderr and collected by the check.
+// c20FirstUse: the client's lazily created singletons, asked for by several goroutines at once as the first
+// thing the process does with them (an application that registers resources on one goroutine while the session
+// of another announces them). What it finds are race-detector reports.
+func c20FirstUse() {
+	var wg sync.WaitGroup
+	start := make(chan struct{})
+	for g := 0; g < 8; g++ {
+		wg.Add(1)
+		go func() {
+			defer wg.Done()
+			<-start
+			safeCall(func() {
+				rm.GetRmCacheInstance()
+				rm.GetRMRemotingInstance()
+				tcc.GetTCCResourceManagerInstance()
+				codec.GetCodecManager()
+				fencehandler.GetFenceHandler()
+				fencedao.GetTccFenceStoreDatabaseMapper()
+			})
+		}()
+	}
+	close(start)
+	wg.Wait()
+}
+
 func runC20(c *Ctx) {
+	if c.Only == "" {
+		c20FirstUse()
+	}
 	w := GetATWorld()
 	xa := w.OpenXA()
 	xa.SetMaxOpenConns(8)
